@@ -2268,4 +2268,156 @@ theorem resume_results_prefix (g : Graph) (hwf : graphWF g = true) (s : State) (
     · refine List.IsPrefix.trans ?_ (hc.ext m)
       rw [hsb.nd]; exact List.prefix_refl _
 
+/-! ## decidable forms of the hypotheses on the graph -/
+
+def namesInjB (g : Graph) : Bool :=
+  (List.range g.nodes.length).all (fun i => (List.range g.nodes.length).all (fun j =>
+    (g.node i).name != (g.node j).name || i == j))
+
+theorem namesInjB_sound {g : Graph} (h : namesInjB g = true) : NamesInj g := by
+  intro i j hi hj hnm
+  unfold namesInjB at h
+  rw [List.all_eq_true] at h
+  have := h i (List.mem_range.mpr hi)
+  rw [List.all_eq_true] at this
+  have := this j (List.mem_range.mpr hj)
+  simpa [hnm] using this
+
+theorem isPrefixChars_append (p rest : List Char) : isPrefixChars p (p ++ rest) = true := by
+  induction p with
+  | nil => rfl
+  | cons a r ih => simp [isPrefixChars, ih]
+
+/-- the stem every creation pre-step name starts with -/
+def preStem : String := "all.internal.stateless.noop.vms."
+
+/-- no parsed test proper of a class without object roots has a name starting with the pre-step stem -/
+def preFreshB (g : Graph) : Bool :=
+  (List.range g.nodes.length).all (fun i => !good g i || !isPrefixChars preStem.toList (g.node i).name.toList)
+
+theorem preFreshB_sound {g : Graph} (h : preFreshB g = true) : PreNamesFresh g := by
+  intro i m v hi _ _ hg heq
+  unfold preFreshB at h
+  rw [List.all_eq_true] at h
+  have := h i (List.mem_range.mpr hi)
+  rw [hg, heq] at this
+  have hp : isPrefixChars preStem.toList (preNameOf g m v).toList = true := by
+    unfold preNameOf preStem
+    simp only [String.toList_append, List.append_assoc]
+    exact isPrefixChars_append _ _
+  rw [hp] at this
+  simp at this
+
+/-! ## the copies a worker's decision looks at -/
+
+theorem mem_copies (g : Graph) (n n' : Nat) (hn : n < g.nodes.length) (hflat : (g.node n').flat = false)
+    (hcls : (g.node n).cls = (g.node n').cls) : n ∈ g.copies n' := by
+  unfold Graph.copies
+  simp only [hflat, Bool.false_eq_true, if_false]
+  by_cases h : n = n'
+  · rw [h]; exact List.mem_cons_self
+  · refine List.mem_cons_of_mem _ (List.mem_filter.mpr ⟨(mem_classNodes g _ n).mpr ⟨hn, hcls⟩, ?_⟩)
+    simpa using h
+
+theorem mem_sharedResults (g : Graph) (s : State) (n n' : Nat) (r : Result) (hn : n < g.nodes.length)
+    (hflat : (g.node n').flat = false) (hcls : (g.node n).cls = (g.node n').cls) (hr : r ∈ (s.nd n).results) :
+    r ∈ sharedResults g s n' := by
+  unfold sharedResults
+  exact List.mem_flatMap.mpr ⟨n, mem_copies g n n' hn hflat hcls, hr⟩
+
+/-! ## the run decision of stateful tests (one step) -/
+
+/-- the worker whose scope filters the results in `should_rerun` -/
+def scopeWorker (s : State) (n w : Nat) : Option Nat :=
+  match (s.nd n).started with | some v => some v | none => some w
+
+/-- the results `should_rerun` counts -/
+def countedResults (g : Graph) (s : State) (n w : Nat) : List Result :=
+  if (g.node n).sets.isEmpty then sharedResults g s n else sharedFilteredResults g s n (scopeWorker s n w)
+
+theorem shouldRerun_true (g : Graph) (s : State) (n w : Nat) (h : shouldRerun g s n w = .ok true) :
+    ((countedResults g s n w).length : Int) < (g.node n).maxTries.getD 1 ∧ (g.node n).maxTries.getD 1 ≠ 1 ∧
+      (g.node n).flat = false ∧ (s.nd n).rerunDisabled = false := by
+  unfold shouldRerun at h
+  unfold countedResults scopeWorker
+  dsimp only at h
+  by_cases c1 : (s.nd n).rerunDisabled = true
+  · simp [c1] at h
+  by_cases c2 : (g.node n).dryRun = true
+  · simp [c1, c2] at h
+  by_cases c3 : (g.node n).flat = true
+  · simp [c1, c2, c3] at h
+  by_cases c4 : (g.node n).cloneSource = true
+  · simp [c1, c2, c3, c4] at h
+  by_cases c5 : g.idIn w n = false
+  · simp [c1, c2, c3, c4, c5] at h
+  by_cases c6 : (g.node n).maxTries.getD 1 < 0
+  · simp [c1, c2, c3, c4, c5, c6] at h
+  simp only [c1, c2, c3, c4, c5, c6, Bool.false_eq_true, if_false, if_true, Bool.not_true] at h
+  generalize (if (g.node n).sets.isEmpty = true then sharedResults g s n
+    else sharedFilteredResults g s n (match (s.nd n).started with | some v => some v | none => some w)) = rs at h ⊢
+  repeat' (split at h)
+  all_goals first
+    | (simp at h; done)
+    | (simp only [Except.ok.injEq, decide_eq_true_eq, List.length_map] at h
+       rename_i hne
+       exact ⟨by omega, by simpa using hne, by simpa using c3, by simpa using c1⟩)
+
+theorem runDecisionStatefulCore_true (g : Graph) (s : State) (n w : Nat) (scan : Bool) (sc : Bool × List Event)
+    (s1 : State) (e1 : List Event) (h : runDecisionStatefulCore g s n w scan sc = .ok (true, s1, e1)) :
+    (scan && sc.1) = true ∨ shouldRerun g s1 n w = .ok true := by
+  unfold runDecisionStatefulCore at h
+  by_cases hc : ((sharedFilteredResults g s n (s.nd n).started).isEmpty && !sc.1) = true
+  · simp only [hc, if_true] at h
+    by_cases hx : (scan && sc.1) = true
+    · exact Or.inl hx
+    · simp only [hx, Bool.false_eq_true, if_false] at h
+      cases hr : shouldRerun g (disableRerun s n) n w with
+      | error e => simp [hr, Except.map] at h
+      | ok r =>
+        simp only [hr, Except.map, Except.ok.injEq, Prod.mk.injEq] at h
+        right; rw [← h.2.1, ← h.1]; exact hr
+  · simp only [hc, Bool.false_eq_true, if_false] at h
+    by_cases hx : (scan && sc.1) = true
+    · exact Or.inl hx
+    · simp only [hx, Bool.false_eq_true, if_false] at h
+      cases hr : shouldRerun g s n w with
+      | error e => simp [hr, Except.map] at h
+      | ok r =>
+        simp only [hr, Except.map, Except.ok.injEq, Prod.mk.injEq] at h
+        right; rw [← h.2.1, ← h.1]; exact hr
+
+/-- A stateful test is run only (a) on the scan path — nobody of the scope finished the class and the state
+control says a set state is missing; in-flight and earlier results are NOT looked at — or (b) by the rerun
+rule: `max_tries ≠ 1` and the results counted in the reuse scope (placeholders included) number less than
+`max_tries`. -/
+theorem runDecision_true_stateful (g : Graph) (s : State) (n w : Nat) (s1 : State) (evs : List Event)
+    (hsets : (g.node n).sets.isEmpty = false) (h : runDecision g s n w = .ok (true, s1, evs)) :
+    (isFinished g s n w 1 = false ∧ (scanStates g s n w).1 = true) ∨
+    (((countedResults g s1 n w).length : Int) < (g.node n).maxTries.getD 1 ∧ (g.node n).maxTries.getD 1 ≠ 1) := by
+  unfold runDecision at h
+  dsimp only at h
+  by_cases c1 : (g.node n).sharedRoot = true
+  · simp [c1] at h
+  by_cases c2 : (g.node n).dryRun = true
+  · simp [c1, c2] at h
+  by_cases c3 : (g.node n).flat = true
+  · simp [c1, c2, c3] at h
+  by_cases c4 : (g.node n).cloneSource = true
+  · simp [c1, c2, c3, c4] at h
+  by_cases c5 : g.idIn w n = false
+  · simp [c1, c2, c3, c4, c5] at h
+  simp only [c1, c2, c3, c4, c5, hsets, Bool.false_eq_true, if_false, Bool.not_true] at h
+  unfold runDecisionStateful at h
+  rcases runDecisionStatefulCore_true g s n w _ _ s1 evs h with hx | hr
+  · left
+    by_cases hf : isFinished g s n w 1 = true
+    · simp [hf] at hx
+    · have hf' : isFinished g s n w 1 = false := by simpa using hf
+      simp only [hf', Bool.not_false, if_true, Bool.true_and] at hx
+      exact ⟨hf', hx⟩
+  · right
+    have := shouldRerun_true g s1 n w hr
+    exact ⟨this.1, this.2.1⟩
+
 end I2N.Trav
